@@ -118,6 +118,15 @@ func c27cRound(tr *verifh.T, r *verifh.Rand, round int) {
 		}(w)
 	}
 	wg.Add(1)
+	nticks := r.Intn(3)
+	go func() { // the clock keeps moving while announcements are in progress (by less than the TTL in total)
+		defer wg.Done()
+		for i := nticks; i > 0; i-- {
+			clk.add(1)
+			runtime.Gosched()
+		}
+	}()
+	wg.Add(1)
 	go func() { // the cleanupTask goroutine's work
 		defer wg.Done()
 		for i := 0; i < 3; i++ {
@@ -253,6 +262,17 @@ func c27cRace(tr *verifh.T, r *verifh.Rand, round int) {
 		}
 	}()
 	c27WaitBlocked(tr, <-uid, "announcer", "sync.RWMutex.Lock", "sync.Mutex.Lock", "semacquire")
+	// a lookup that has found the group and now waits for its read lock: it reads the group before or
+	// after its deletion; either way only announcements that were the latest at some point of the call
+	var looked []*core.PeerInfo
+	lgid := make(chan int64, 1)
+	wg.Add(1)
+	go func() {
+		defer wg.Done()
+		lgid <- c27GID()
+		looked, _ = st.GetPeers(h, 10)
+	}()
+	c27WaitBlocked(tr, <-lgid, "lookup", "sync.RWMutex.RLock", "semacquire")
 	go func() {
 		defer wg.Done()
 		gidc <- c27GID()
@@ -261,6 +281,13 @@ func c27cRace(tr *verifh.T, r *verifh.Rand, round int) {
 	c27WaitBlocked(tr, <-gidc, "group cleanup", "sync.RWMutex.RLock", "semacquire")
 	g.mu.Unlock()
 	wg.Wait()
+	for _, pi := range looked {
+		isOld := pi.PeerID == old.PeerID && pi.Port == 1 && !pi.Complete && pi.IP == old.IP
+		isNew := pi.PeerID == fresh.PeerID && pi.Port == 7 && pi.Complete && pi.IP == fresh.IP
+		if !isOld && !isNew {
+			tr.PropFail("stale-announcement", fmt.Sprintf("lookup-racing-with-group-deletion-returned-%s", c27PeerTok(pi)))
+		}
+	}
 	s.mu.RLock()
 	replaced := s.peerGroups[h] != g
 	s.mu.RUnlock()
@@ -297,7 +324,7 @@ func TestVerif_C27c(t *testing.T) {
 		}
 		return
 	}
-	for i := 0; i < verifh.Scale(400, 20000); i++ {
+	for i := 0; i < verifh.Scale(1500, 30000); i++ {
 		c27cRace(tr, r, i)
 	}
 	for i := 0; i < verifh.Scale(3000, 60000); i++ {
